@@ -139,9 +139,13 @@ impl<T> Vec<T> {
 
     /// Appends an element to the back of the vector.
     pub fn push(&self, value: T, fill_columns: impl FnOnce(&T, &mut [Utf32String])) -> u32 {
+        #[cfg(nucleo_verif)]
+        crate::verif::yield_point("push.before_reserve", 0);
         let index = self.inflight.fetch_add(1, Ordering::Release);
         // the inflight counter is a `u64` to catch overflows of the vector'scapacity
         let index: u32 = index.try_into().expect("overflowed maximum capacity");
+        #[cfg(nucleo_verif)]
+        crate::verif::yield_point("push.reserved", index as u64);
         let location = Location::of(index);
 
         // eagerly allocate the next bucket if we are close to the end of this one
@@ -176,6 +180,8 @@ impl<T> Vec<T> {
             }
             fill_columns(&value, Entry::matcher_cols_mut(entry, self.columns));
             (*entry).slot.get().write(MaybeUninit::new(value));
+            #[cfg(nucleo_verif)]
+            crate::verif::yield_point("push.before_publish", index as u64);
             // let other threads know that this entry is active
             (*entry).active.store(true, Ordering::Release);
         }
@@ -206,6 +212,8 @@ impl<T> Vec<T> {
             .fetch_add(u64::from(count), Ordering::Release)
             .try_into()
             .expect("overflowed maximum capacity");
+        #[cfg(nucleo_verif)]
+        crate::verif::yield_point("extend.reserved", start_index as u64);
 
         // Compute first and last locations
         let start_location = Location::of(start_index);
@@ -266,6 +274,8 @@ impl<T> Vec<T> {
                 }
                 fill_columns(&v, Entry::matcher_cols_mut(entry, self.columns));
                 (*entry).slot.get().write(MaybeUninit::new(v));
+                #[cfg(nucleo_verif)]
+                crate::verif::yield_point("extend.before_publish", start_index as u64 + i as u64);
                 (*entry).active.store(true, Ordering::Release);
             }
         }
@@ -274,6 +284,8 @@ impl<T> Vec<T> {
     /// race to initialize a bucket
     fn get_or_alloc(bucket: &Bucket<T>, len: u32, cols: u32) -> *mut Entry<T> {
         let entries = unsafe { Bucket::alloc(len, cols) };
+        #[cfg(nucleo_verif)]
+        crate::verif::yield_point("alloc.before_cas", len as u64);
         match bucket.entries.compare_exchange(
             ptr::null_mut(),
             entries,
@@ -627,6 +639,12 @@ struct Location {
 // this also reduces the maximum capacity of a vector.
 const SKIP: u32 = 32;
 const SKIP_BUCKET: u32 = (u32::BITS - SKIP.leading_zeros()) - 1;
+
+#[cfg(nucleo_verif)]
+pub(crate) fn location_of(index: u32) -> (u32, u32, u32) {
+    let location = Location::of(index);
+    (location.bucket, location.bucket_len, location.entry)
+}
 
 impl Location {
     fn of(index: u32) -> Location {
